@@ -82,8 +82,9 @@ Definition base_conn : rec :=
 Definition base_root : rec := upd FFill (VS "N7") zero_rec.
 
 Record obj := {
-  o_path : list string;      (* AbsIDArray: ids from the outermost container down to the object *)
-  o_shape : string;          (* Shape.Value (the compiler stores it lower-cased) *)
+  o_path : list string;      (* the ids Object.AbsID() concatenates: the object's ID preceded by the IDs of
+                                its ancestors up to (excluding) the first one whose ID is "" or that has no parent *)
+  o_shape : string;          (* Shape.Value (lower-case from the compiler; d2sequence stores "Square", "Page") *)
   o_level : Z;               (* Level() *)
   o_children : bool;         (* len(ChildrenArray) > 0 *)
   o_is_container : bool;     (* IsContainer(): len(Children) > 0 *)
@@ -100,7 +101,7 @@ Record obj := {
 
 Record edge := {
   e_id : string;             (* Edge.AbsID() *)
-  e_src : list string; e_dst : list string;   (* AbsIDArray of Src / Dst *)
+  e_src : list string; e_dst : list string;   (* AbsID chains of Src / Dst *)
   e_style : sstyle }.
 
 (* Object.AbsID: parent's AbsID + "." + ID *)
@@ -114,8 +115,17 @@ Definition abs_id (p : list string) : string := join_dot p.
 
 Definition str_in (s : string) (l : list string) : bool := existsb (String.eqb s) l.
 
-(* Shape.SetType on a lower-case shape value *)
+(* strings.ToLower / strings.EqualFold against a lower-case ASCII constant, on ASCII shape names *)
+Definition lower_ascii_char (c : ascii) : ascii :=
+  let n := N_of_ascii c in
+  if (N.leb 65 n && N.leb n 90)%N then ascii_of_N (n + 32) else c.
+Fixpoint lower_ascii (s : string) : string :=
+  match s with EmptyString => EmptyString | String c r => String (lower_ascii_char c) (lower_ascii r) end.
+Definition shape_l (o : obj) : string := lower_ascii (o_shape o).
+
+(* Shape.SetType: EqualFold circle -> oval, square -> rectangle, then ToLower *)
 Definition set_type (t : string) : string :=
+  let t := lower_ascii t in
   if String.eqb t "circle" then "oval" else if String.eqb t "square" then "rectangle" else t.
 
 Definition is_sd (o : obj) : bool := String.eqb (o_shape o) "sequence_diagram".
@@ -123,7 +133,7 @@ Definition is_sd (o : obj) : bool := String.eqb (o_shape o) "sequence_diagram".
 (* Object.GetFill *)
 Definition get_fill (o : obj) : string :=
   let level := o_level o in
-  let sh := o_shape o in
+  let sh := shape_l o in
   if str_in sh ["sql_table"; "class"] then "N1"
   else if o_sd_note o then "N7"
   else if o_sd_group o then "N5"
@@ -153,8 +163,8 @@ Definition dash_nonzero (v : value) : bool := negb (value_eqb v (VZ 0)).
 
 (* Object.GetStroke(dashGapSize) *)
 Definition get_stroke (o : obj) (dash : value) : string :=
-  if str_in (o_shape o) ["code"; "text"] then "N1"
-  else if str_in (o_shape o) ["class"; "sql_table"] then "N7"
+  if str_in (shape_l o) ["code"; "text"] then "N1"
+  else if str_in (shape_l o) ["class"; "sql_table"] then "N7"
   else if dash_nonzero dash then "B2" else "B1".
 
 (* Edge.GetStroke *)
@@ -272,8 +282,8 @@ Definition to_shape (th : option theme) (o : obj) : option rec :=
   let r := unless_set (th_c4 th) st FColor (VS (if o_children o then "N1" else "N7")) r in
   let r := apply_styles o r in
   let hdr (r : rec) : rec := upd FFontSize (vsub (r FFontSize) header_font_add) r in
-  let r' := if String.eqb (o_shape o) "class" then (if o_has_class o then Some (hdr r) else None)
-            else if String.eqb (o_shape o) "sql_table" then (if o_has_table o then Some (hdr r) else None)
+  let r' := if String.eqb (shape_l o) "class" then (if o_has_class o then Some (hdr r) else None)
+            else if String.eqb (shape_l o) "sql_table" then (if o_has_table o then Some (hdr r) else None)
             else Some r in
   match r' with
   | None => None
@@ -336,9 +346,9 @@ Definition export (th : option theme) (g : graph) : option diagram :=
 
 (* the compiler invariant the class / sql_table branches rely on *)
 Definition wf_objb (o : obj) : bool :=
-  Bool.eqb (o_has_class o) (String.eqb (o_shape o) "class")
-  && Bool.eqb (o_has_table o) (String.eqb (o_shape o) "sql_table")
-  && str_in (o_shape o) ("" :: shape_names).
+  Bool.eqb (o_has_class o) (String.eqb (shape_l o) "class")
+  && Bool.eqb (o_has_table o) (String.eqb (shape_l o) "sql_table")
+  && str_in (shape_l o) ("" :: shape_names).
 
 (* the keywords whose value the export must carry unchanged, per kind of element *)
 Definition styles_fields : list field :=
@@ -399,6 +409,22 @@ Section Label.
                  else l in
         apply_tt (l_tt it) l.
 
+  (* the same with the repair of coq/C28/fix.patch: the rule fires only when the user set no
+     text-transform at all (`Style.TextTransform == nil` instead of `!NoneTextTransform()`) *)
+  Definition set_dims_label_fixed (caps : bool) (it : litem) : string :=
+    let l := l_label it in
+    let unset := match l_tt it with None => true | Some _ => false end in
+    if l_edge it then
+      if String.eqb l "" then l
+      else apply_tt (l_tt it) (if caps && unset then upper l else l)
+    else
+      if String.eqb l "" && negb (str_in (l_shape it) ["image"; "sql_table"; "class"]) then l
+      else
+        let l := if caps && negb (String.eqb (l_shape it) "code")
+                 then (if negb (l_latex it) && unset then upper l else l)
+                 else l in
+        apply_tt (l_tt it) l.
+
   (* the three facts about the case mappings under which the order "CapsLock first, user's transform
      second" is harmless, at one label *)
   Definition caps_commutes_at (tt : option string) (l : string) : Prop :=
@@ -418,6 +444,10 @@ Section Label.
     | None => true
     end.
 End Label.
+
+(* Which of the two label models Check.v ties to the code.  false = the pinned d2 (CapsLock fires unless
+   text-transform is "none"); set to true when coq/C28/fix.patch has been applied to d2. *)
+Definition capslock_fix_applied : bool := false.
 
 Definition valid_tts : list string := ["none"; "uppercase"; "lowercase"; "capitalize"].
 
